@@ -140,9 +140,27 @@ Proof.
     + rewrite (Hbf eq_refl) in *. destruct (WFa_compact s1 HW1) as (HWc & HMc & Hcc & _).
       do 4 eexists. split; [reflexivity|]. splits; auto; lia.
   - apply Z.eqb_neq in Hz.
+    assert (Hrpos : 0 < c_remain s).
+    { destruct (Z.eq_dec (c_remain s) 0) as [E0|]; [|lia]. exfalso. apply Hz. cbn [s1 c_remain].
+      replace n with 0 by lia. rewrite E0. reflexivity. }
+    specialize (Hn4 Hrpos).
     destruct (WFa_reset s1 HW1) as (HWr & HMr & Hcr & Hdr).
     destruct (IH (reset_if_end s1) (count - n) (ret + n) (out ++ ztake n (zdrop (c_cursor s) (c_line s))) HWr ltac:(lia))
       as (r & s' & c' & o' & E' & HW' & Hc' & Hcc & HM').
     { rewrite Hdr. unfold lsize. cbn [s1 c_line c_cursor]. unfold lsize in *. lia. }
     rewrite E'. do 4 eexists. split; [reflexivity|]. splits; auto; try lia. rewrite Hc', Hcr. reflexivity.
+Qed.
+
+Lemma rfs_any s count r s' c' bs :
+  read_from_stream s count = (r, s', c', bs) -> WFa s -> 0 <= count ->
+  WFa s' /\ c_cap s' = c_cap s /\ c_finish s' = c_finish s
+  /\ ((r = -1 /\ M s' <= M s) \/ (0 <= r <= count /\ c' = count - r /\ M s' = M s - r)).
+Proof.
+  unfold read_from_stream. intros H (Hcur & Hls & Hcap & Hrem) Hc.
+  pose proof (sk_read_total (c_ps s) (c_err s) (Z.min count (c_remain s))) as Ht.
+  pose proof (sk_read_bounds (c_ps s) (c_err s) (Z.min count (c_remain s))) as Hb.
+  destruct (sk_read (c_ps s) (c_err s) (Z.min count (c_remain s))) as [[r0 bs0] ps'].
+  destruct (Z.ltb_spec r0 0) as [Hneg|Hpos]; inversion H; subst; unfold WFa, M, lsize in *; cbn.
+  - splits; auto; try lia.
+  - pose proof (wrap_range (c_remain s - r)). splits; auto; try lia.
 Qed.
